@@ -347,6 +347,7 @@ func runC06(c *core.Ctx) core.Meta {
 	stGuard := c.Rule("R06.guard", "every lane-indexed write, storage access and LDS access inside a lane loop uses the loop's own lane index and is dominated by the edge on which that lane's bit of state.EXEC() is set (both `== 0 {continue}` and `!= 0 {…}` spellings and laneMasked(exec,i); inverted tests and tests of another mask are rejected)", 230)
 	stRead := c.Rule("R06.flow", "every operand read inside a lane loop reads the loop's own lane; VCC/EXEC/SCC values are used only through lane i's own bit; no value carried from another iteration reaches a lane-indexed write", 600)
 	stUni := c.Rule("R06.uniform", "writes to a scalar destination (lane constant, SetVCC, SetEXEC, SetSCC) happen outside every lane loop with a lane-mask accumulator, or in a listed documented cross-lane instruction", 60)
+	stIdx := c.Rule("R06.index", "inside a lane loop the lane index is used only to select the lane (lane argument of operand accessors and helpers, bit position of a mask, index of a per-lane array); it never enters the arithmetic that produces the value written to the lane", 230)
 	stScalar := c.Rule("R06.scalar", "scalar handlers (reachable from the SOP*/SMEM dispatchers) do not read EXEC() unless the instruction is an EXEC-reading scalar instruction", 100)
 
 	excUsed := map[string]bool{}
@@ -486,6 +487,14 @@ func runC06(c *core.Ctx) core.Meta {
 						c.ReportAt("R06.flow", fn, e.in.Pos(), "loop-carried:"+e.label, "the value written to lane i depends on "+prov.Of(bad)+", which is carried over from earlier iterations (other lanes)")
 					} else {
 						stRead.Ob(true)
+					}
+					// the lane index selects the lane; it is not an input of lane i's result
+					stIdx.Instances++
+					if bad := laneAsData(cc.Args[len(cc.Args)-1], l, map[ssa.Value]bool{}, 0); bad != nil {
+						stIdx.Ob(false)
+						c.ReportAt("R06.index", fn, e.in.Pos(), "lane-index-as-data:"+e.label, "the value written to lane i is computed from the lane index itself ("+core.InstrString(bad.(ssa.Instruction))+"): permuting the lanes does not permute the results (only documented cross-lane instructions may use the lane number as data)")
+					} else {
+						stIdx.Ob(true)
 					}
 				case "mem", "lds":
 					if l == nil {
@@ -1062,4 +1071,71 @@ func validAccumulator(acc *ssa.Phi, l *laneLoop) bool {
 		return true
 	}
 	return usesOK(acc, 0)
+}
+
+// laneAsData: does v depend on the lane index through arithmetic (rather than
+// through lane selection)? Returns the instruction that consumes the index as data.
+func laneAsData(v ssa.Value, l *laneLoop, seen map[ssa.Value]bool, depth int) ssa.Value {
+	if v == nil || seen[v] || depth > 40 {
+		return nil
+	}
+	seen[v] = true
+	in, ok := v.(ssa.Instruction)
+	if !ok {
+		return nil
+	}
+	if in.Block() != nil && !l.header.Dominates(in.Block()) {
+		return nil
+	}
+	isIV := func(x ssa.Value) bool { return ivOf(x) == l.iv }
+	switch t := v.(type) {
+	case *ssa.Phi:
+		if t == l.iv {
+			return nil // judged by the consumer
+		}
+	case *ssa.BinOp:
+		switch t.Op {
+		case token.SHL, token.SHR:
+			if isIV(t.Y) { // bit position: 1 << i, mask >> i
+				return laneAsData(t.X, l, seen, depth+1)
+			}
+		}
+		if isIV(t.X) || isIV(t.Y) {
+			return t
+		}
+	case *ssa.Convert:
+		if isIV(t.X) {
+			// a bare conversion of the index is data only if it reaches the written value, which is
+			// where we came from; selector uses (call arguments, indices, shift amounts) never get here
+			return t
+		}
+	case *ssa.Call:
+		// arguments that are the index itself select a lane (accessors, lane-parametric helpers)
+		for _, a := range t.Call.Args {
+			if isIV(a) {
+				continue
+			}
+			if bad := laneAsData(a, l, seen, depth+1); bad != nil {
+				return bad
+			}
+		}
+		return nil
+	case *ssa.IndexAddr:
+		return laneAsData(t.X, l, seen, depth+1) // index position selects
+	case *ssa.Index:
+		return laneAsData(t.X, l, seen, depth+1)
+	case *ssa.Lookup:
+		return laneAsData(t.X, l, seen, depth+1)
+	case *ssa.Slice:
+		return laneAsData(t.X, l, seen, depth+1)
+	}
+	for _, op := range in.Operands(nil) {
+		if *op == nil {
+			continue
+		}
+		if bad := laneAsData(*op, l, seen, depth+1); bad != nil {
+			return bad
+		}
+	}
+	return nil
 }
